@@ -283,7 +283,7 @@ pub fn drive_ops(a: &Args, out: &mut Out) {
     } else {
         gen::exhaustive_pairs(3, 3)
     };
-    let (nrand, maxlen) = if thorough { (20000, 40) } else { (1500, 16) };
+    let (nrand, maxlen) = if thorough { (20000, 40) } else { (3000, 24) };
     for _ in 0..a.num("nrand", nrand) {
         pairs.push(gen::random_pair(&mut rng, maxlen));
     }
